@@ -186,6 +186,10 @@ macro_rules! matrix_impl {
                 self.record("aliasOptBody", vec![("body", j(&body))]);
                 self.ret()
             }
+            $($asyncness)? fn regex_path(&self, n: i32) -> Result<String, Error> {
+                self.record("regexPath", vec![("n", j(&n))]);
+                self.ret()
+            }
             $($asyncness)? fn list_return(&self, n: i32) -> Result<Vec<String>, Error> {
                 self.record("listReturn", vec![("n", j(&n))]);
                 self.ret()
@@ -351,6 +355,14 @@ impl Loop {
                     let i = m["index"].as_u64().unwrap() as usize;
                     if i < path.len() {
                         path[i] = pct(&s("value"));
+                    }
+                }
+                "set_path_segments" => {
+                    // a raw request whose parameter position holds several segments (only a regex parameter routes it)
+                    let i = m["index"].as_u64().unwrap() as usize;
+                    if i < path.len() {
+                        let segs: Vec<String> = m["values"].as_array().unwrap().iter().map(|v| pct(v.as_str().unwrap())).collect();
+                        path.splice(i..i + 1, segs);
                     }
                 }
                 "drop_header" => {
@@ -603,6 +615,7 @@ macro_rules! gen_calls {
                     $w!(c.opt_body(b.as_ref())).map(|v| j(&v))
                 }
                 "aliasOptBody" => $w!(c.alias_opt_body(&arg::<a::OptInnerAlias>(args, "body")?)).map(|v| j(&v)),
+                "regexPath" => $w!(c.regex_path(arg(args, "n")?)).map(|v| j(&v)),
                 "listReturn" => $w!(c.list_return(arg(args, "n")?)).map(|v| j(&v)),
                 "setReturn" => $w!(c.set_return(arg(args, "n")?)).map(|v| j(&v)),
                 "mapReturn" => $w!(c.map_return(arg(args, "n")?)).map(|v| j(&v)),
